@@ -311,6 +311,13 @@ def judge(prep, res):
                             % (i, a.get("bytes_limit"), a.get("items_limit"), a.get("age_s"), r["raise"], r.get("msg", "")[:120]), False))
             if a["a"] not in ("call", "shelve"):
                 continue
+            if (a["a"] == "shelve" and r.get("raise") == "KeyError" and r.get("site", [])[-2:] == ["get", "load_item"]
+                    and r.get("msg", "").startswith("'Non-existing item")
+                    and any(any(e["op"] == "rmdir" and e.get("r") == "ok" and base.pcode(e["p"], {})[:2] == (6, a["k"])
+                                for e in o.get("log", [])) for j, o in enumerate(res["outs"]) if j != i)):
+                # documented: .get() of a shelved reference whose item another participant removed in the meantime
+                # (eviction, clear, or invalidation by a validation callback) raises KeyError('Non-existing item ...')
+                continue
             if "raise" in r:
                 bad.append(("participant %d: f(%d) raised %s (%s) because of the concurrent activity [%s]"
                             % (i, a["k"], r["raise"], r.get("msg", "")[:120], ">".join(r.get("site", [])[-4:])),
